@@ -502,7 +502,16 @@ func runCase(t vh.TB, c *Case) vh.Outcome {
 		o.Err = fmt.Errorf("the backend-facing handler is still blocked in Write/Close 40s after all upload attempts were answered (script %+v)", c.Script)
 		return o
 	}
-	// let stale transport goroutines and the fault server settle
+	// the healthy uploads of the other requests finish first (the fault server is still serving them) ...
+	ow := make(chan struct{})
+	go func() { owg.Wait(); close(ow) }()
+	select {
+	case <-ow:
+	case <-time.After(20 * time.Second):
+		o.Err = fmt.Errorf("a concurrent healthy upload of another request did not finish within 20s")
+		return o
+	}
+	// ... then stale transport goroutines and the fault server are left to settle
 	time.Sleep(20 * time.Millisecond)
 	tr.CloseIdleConnections()
 	time.Sleep(5 * time.Millisecond)
@@ -512,14 +521,6 @@ func runCase(t vh.TB, c *Case) vh.Outcome {
 	select {
 	case <-waitc:
 	case <-time.After(3 * time.Second):
-	}
-	ow := make(chan struct{})
-	go func() { owg.Wait(); close(ow) }()
-	select {
-	case <-ow:
-	case <-time.After(20 * time.Second):
-		o.Err = fmt.Errorf("a concurrent healthy upload of another request did not finish within 20s")
-		return o
 	}
 	srv.mu.Lock()
 	attempts := append([]*attempt(nil), srv.attempts...)
